@@ -71,6 +71,10 @@ chk("C17", "Coq theorems: a vector compare against a splatted byte + movemask + 
     "Intel intrinsic semantics are observed on this CPU, not proved; NEON and the pure v128 backend are not buildable here.",
     "Coq proof (bit-list lemmas) + two-build correspondence")
 
+chk("C18", "Coq theorems (Model/Cas.v): with a strong compare-exchange the publish-once cache keeps its invariant in every reachable state for any number of threads and every schedule - no null or dangling dereference, at most one published decoding, every live allocation accounted for; the weak variant the code used before is refuted (F15, repaired). Tie: the two AtomicPtr fields go through a shim; all interleavings of 1-3 threads are enumerated by DFS on the real code, each schedule is replayed in the extracted model (per-thread outcome must agree) and the allocation ledger of the run must return to the baseline (this found F31: the loser freed an Arc<()> - repaired).",
+    "Sequentially consistent model; memory orderings not verified; clone/drop covered by the ledger only.",
+    "Coq proof (invariant over all schedules, any thread count) + exhaustive schedule exploration replayed in the model")
+
 NA = {}
 ALL = ["C%02d" % i for i in range(1, 21)]
 for p in ALL:
